@@ -15,7 +15,7 @@ REAL = ['onl.netdev.wire.Wire', 'onl.netdev.wire.Cable', 'onl.sim kernel']
 STUBS = ['injector, taps, endpoints, scripted delay distribution, ScriptedRandom replacing onl.netdev.wire.random']
 ASSUMPTIONS = ['the n-th packet taken from the wire consumes the next loss draw (if a loss rate is set) and, if kept, the '
                'next delay draw; a packet is lost iff draw < p', 'FLOAT workloads: relative tolerance 1e-9 on delivery times']
-PROBES = ['two_sources_same_ids', 'later_packet_shorter_delay', 'zero_delay', 'lost_between_delivered', 'held_back_by_predecessor', 'cable',
+PROBES = ['same_object_reenters', 'draw_near_loss_rate', 'two_sources_same_ids', 'later_packet_shorter_delay', 'zero_delay', 'lost_between_delivered', 'held_back_by_predecessor', 'cable',
           'loss_rate_one', 'loss_rate_zero']
 
 
@@ -36,10 +36,19 @@ def gen(rng, tier):
         delays = sorted([rng.choice(pool) for _ in range(8)], reverse=True)
     else:
         delays = [rng.choice(pool) for _ in range(rng.randint(2, 12))]
-    loss = rng.choice([None, None, 0, 0.3, 0.5, 1, 1.0])
-    case = {'engine': 'N', 'mode': mode, 'delays': delays, 'loss': loss,
-            'loss_draws': [rng.random() for _ in range(16)],
-            'workload': [[ts[k], rng.randint(0, 2), rng.choice([64, 512, 1500])] for k in range(n)]}
+    loss = rng.choice([None, None, 0, 0.3, 0.5, 1, 1.0, 0.125, 0.004, 0.995, 0.015, 1 / 3])
+    draws = [rng.random() for _ in range(16)]
+    if loss and loss < 1:
+        # draws just below / above the loss rate: a rate that is rounded or compared the wrong way flips them
+        for k in range(0, 16, 2):
+            draws[k] = min(0.999999, max(0.0, loss + rng.choice([-0.004, -1e-3, -1e-6, 1e-6, 1e-3, 0.004])))
+    wl = [[ts[k], rng.randint(0, 2), rng.choice([64, 512, 1500])] for k in range(n)]
+    if rng.random() < 0.25:
+        # the same Packet object enters again later (a retransmission), possibly while its first copy is still inside
+        for k in range(1, n):
+            if rng.random() < 0.3:
+                wl[k] = [wl[k][0], wl[k][1], wl[k][2], 0, rng.randrange(k)]
+    case = {'engine': 'N', 'mode': mode, 'delays': delays, 'loss': loss, 'loss_draws': draws, 'workload': wl}
     if rng.random() < 0.3:
         # a second source on the same wire: its packets carry the same ids 1, 2, ... as the first one's
         case['workload_b'] = [[t, 2, 200] for t in gen_times(rng, rng.randint(1, 15), mode)]
@@ -147,21 +156,26 @@ def check_wire(w, case, nm):
         if r[0] == 'IN' and r[3] == nm:
             arr.append((r[1], r[2], r[4], r[5]))
         elif r[0] == 'OUT' and r[3] == nm:
-            if r[4] in outs:
-                viol.append(('C10.1', 'packet %s delivered twice by %s' % (r[4], nm)))
-            outs[r[4]] = (r[1], r[2], r[5])
+            outs.setdefault(r[4], []).append((r[1], r[2], r[5]))
             outorder.append(r[4])
         elif r[0] == 'DRAW' and r[5] == nm:
             draws.append((r[3], r[4]))
-    known = set(a[2] for a in arr)
-    for k in outs:
+    known = {}
+    for a in arr:
+        known[a[2]] = known.get(a[2], 0) + 1
+    for k, lst in outs.items():
         if k not in known:
             viol.append(('C10.1', '%s delivered a packet that never entered it' % nm))
+        elif len(lst) > known[k]:
+            viol.append(('C10.1', 'packet %s entered %s %d time(s) and was delivered %d times' % (k, nm, known[k], len(lst))))
+    if any(c > 1 for c in known.values()):
+        stats['same_object_reenters'] = 1
     di = 0
     prev = None
     nontrivial = False
     expected_order = []
     last_lost = False
+    taken = {}
     for g, a, pkt, fields in arr:
         lost = False
         if p:
@@ -173,12 +187,12 @@ def check_wire(w, case, nm):
             u = draws[di][1]
             di += 1
             lost = u < p
+            if abs(u - p) < 0.005:
+                stats['draw_near_loss_rate'] = 1
         elif p == 0:
             stats['loss_rate_zero'] = 1
         if lost:
             nontrivial = True
-            if pkt in outs:
-                viol.append(('C10.3', 'packet %s was delivered although its loss draw %r < loss rate %r' % (pkt, u, p)))
             last_lost = True
             continue
         if di >= len(draws) or draws[di][0] != 'delay':
@@ -186,11 +200,14 @@ def check_wire(w, case, nm):
             break
         d = draws[di][1]
         di += 1
-        if pkt not in outs:
-            viol.append(('C10.1', 'packet %s (entered %s at %r, delay %r) was never delivered' % (pkt, nm, a, d)))
+        k = taken.get(pkt, 0)
+        taken[pkt] = k + 1
+        if k >= len(outs.get(pkt, [])):
+            viol.append(('C10.1', 'packet %s (entered %s at %r, delay %r%s) was never delivered' %
+                         (pkt, nm, a, d, ', loss draw %r >= loss rate %r' % (u, p) if p else '')))
             continue
-        t = outs[pkt][1]
-        if outs[pkt][2] != fields:
+        t = outs[pkt][k][1]
+        if outs[pkt][k][2] != fields:
             viol.append(('C10.1', 'packet %s changed on the wire' % pkt))
         want = a + d if prev is None else max(a + d, prev)
         if prev is not None and prev > a + d:
@@ -208,9 +225,12 @@ def check_wire(w, case, nm):
             stats['later_packet_shorter_delay'] = 1
         expected_order.append((pkt, d))
         prev = t
+    for pkt, lst in outs.items():
+        if len(lst) > taken.get(pkt, 0) and pkt in known and not viol:
+            viol.append(('C10.3', 'packet %s was delivered by %s although its loss draw was below the loss rate %r' % (pkt, nm, p)))
     if di < len(draws) and not viol:
         viol.append(('C10.2', '%s made %d more random draws than its packets account for' % (nm, len(draws) - di)))
-    if [x[0] for x in expected_order if x[0] in outs] != outorder and not viol:
+    if [x[0] for x in expected_order] != outorder and not viol:
         viol.append(('C10.2', '%s delivered %r, entry order of the kept packets is %r' %
                      (nm, outorder, [x[0] for x in expected_order])))
     return viol, stats, nontrivial
